@@ -475,6 +475,10 @@ pub fn run(tier: Tier) -> i32 {
         ("prev-after-deferred/sibling", r##"<rect id="a" wh="10"/><rect id="c" xy="#b|h" wh="10"/><rect id="e" xy="^|v" wh="10"/><rect id="b" xy="50 50" wh="10"/>"##, BBox::xywh(60., 60., 10., 10.)),
         ("prev-after-deferred/self", r##"<rect id="a" xy="5 5" wh="10"/><rect id="e" xy="^|h" wh="#b"/><rect id="b" xy="50 50" wh="4"/>"##, BBox::xywh(15., 8., 4., 4.)),
         ("prev-after-deferred/group", r##"<g id="g"><rect xy="#b|h" wh="2"/><rect xy="0 0" wh="6"/></g><rect id="e" xy="^|v" wh="2"/><rect id="b" xy="50 50" wh="4"/>"##, BBox::xywh(27., 53., 2., 2.)),
+        // (fifth review round) ... also when it is the last element of an <if> / <loop> which had to wait
+        ("prev-after-deferred/last-in-if", r##"<if test="1"><rect id="a" xy="#b|h" wh="3"/><rect id="b" xy="10 10" wh="5"/><rect id="l" xy="#a|v 20" wh="4"/></if><rect id="e" xy="^|h 1" wh="2"/>"##, BBox::xywh(19.5, 35., 2., 2.)),
+        ("prev-after-deferred/last-in-if-control", r##"<if test="1"><rect id="b" xy="10 10" wh="5"/><rect id="a" xy="#b|h" wh="3"/><rect id="l" xy="#a|v 20" wh="4"/></if><rect id="e" xy="^|h 1" wh="2"/>"##, BBox::xywh(19.5, 35., 2., 2.)),
+        ("prev-after-deferred/last-in-defs-group", r##"<g><rect id="a" xy="#b|h" wh="3"/><rect id="b" xy="10 10" wh="5"/><rect id="l" xy="#a|v 20" wh="4"/><rect id="e" xy="^|h 1" wh="2"/></g>"##, BBox::xywh(19.5, 35., 2., 2.)),
         ("prev-without-deferral/control", r##"<rect id="b" xy="50 50" wh="10"/><rect id="a" wh="10"/><rect id="c" xy="#b|h" wh="10"/><rect id="e" xy="^|v" wh="10"/>"##, BBox::xywh(60., 60., 10., 10.)),
     ];
     let st = run_space(prev_docs.len(), |i| verify(prev_docs[i].1, &[("e", prev_docs[i].2)], prev_docs[i].0, 1));
